@@ -88,12 +88,12 @@ class Case:
 
     @property
     def scale(self):
-        """every entry of every operand is multiplied by 2**scale (prec word `d@<k>` / `f@<k>`)"""
-        return int(self.prec.split("@")[1]) if "@" in self.prec else 0
+        """every entry of every operand is multiplied by 2**scale (prec word `d@<k>` / `f@<k>`, optionally followed by `!`)"""
+        return int(self.prec.rstrip("!").split("@")[1]) if "@" in self.prec else 0
 
     @property
     def base_prec(self):
-        return self.prec.split("@")[0]
+        return self.prec.rstrip("!").split("@")[0]
 
     def Aex(self, scaled=True):
         f = Fr(2) ** self.scale if scaled else Fr(1)
@@ -292,10 +292,11 @@ def generate(rng, tier):
         for op, lays in combos:
             n = rng.randint(1, nmax) if rd else 1 + (len(cases) % nmax)
             prec = "f" if rng.random() < 0.15 else "d"
+            rv = rng.random() < 0.25      # operands passed as rvalue views of the same data (`!`)
             if rng.random() < 0.25:
                 # the same kind of system at another scale (all entries times a power of two: exact, same condition number)
                 prec += "@%d" % (rng.choice([-66, -40, -12, 9, 30, 60]) if prec == "d" else rng.choice([-30, -12, 9, 20]))
-            cases.append(make_case(rng, op, lays, n, "regular", prec))
+            cases.append(make_case(rng, op, lays, n, "regular", prec + ("!" if rv else "")))
     # every n for the plainest forms
     for n in range(1, nmax + 1):
         for op, lays in (("gsv", ["rm", "ct"]), ("gsm", ["rm", "rm"]), ("ssv", ["rl", "pl", "ct"]), ("ssv", ["ru", "pl", "ct"]),
